@@ -2428,6 +2428,8 @@ impl XmlElement {
             self.id()
         };
         attr.place_subtree_after(id);
+        // the element is the owner of the attribute from now on
+        attr.set_parent_id(Some(self.id()));
         self.attributes.push(attr);
     }
 
